@@ -31,7 +31,7 @@ CONSTANTS Alphabet,   \* sequence of ops offered to the encoder actions
 
 VARIABLES bits,       \* the logical bit stream
           ops,        \* encoder calls made so far (history)
-          mode,       \* "enc" | "dec"
+          mode,       \* "enc" | "dec" | "free" (decoder state unspecified after an "any" outcome)
           pos,        \* decoder cursor: number of bits consumed
           outs        \* decoder outcomes so far (history)
 
@@ -272,10 +272,12 @@ Offer == IF Follow
          THEN (IF Len(outs) < Len(ops) THEN <<ops[Len(outs) + 1]>> ELSE <<>>)
          ELSE (IF MoreCalls(outs) THEN Calls ELSE <<>>)
 
+\* After an outcome on which the property is silent ("any") nothing more is specified about this decoder:
+\* mode "free" (no action constrains it any further; its cursor is unspecified).
 ReadWith(c, r) ==
     /\ outs' = Append(outs, [c |-> c, out |-> r.out, val |-> r.val, p |-> r.p, class |-> r.class])
-    /\ IF r.out = "any" THEN pos' \in pos..r.p ELSE pos' = r.p
-    /\ UNCHANGED <<bits, ops, mode>>
+    /\ IF r.out = "any" THEN mode' = "free" /\ pos' = pos ELSE mode' = mode /\ pos' = r.p
+    /\ UNCHANGED <<bits, ops>>
 Read(c) == mode = "dec" /\ ReadWith(c, DecAt(bits, pos, c))
 
 OfferedCall(k) == { i \in DOMAIN Offer : Offer[i].op = k }
@@ -303,11 +305,11 @@ Next == EncNext \/ DecNext
 
 \* C01: the same call sequence reads back exactly the values written ...
 RoundTrip ==
-    (mode = "dec" /\ Follow) =>
+    (mode # "enc" /\ Follow) =>
         \A i \in 1..Len(outs) : outs[i].out = "ok" /\ outs[i].val = ops[i].v
 \* ... and consumes the whole buffer
 ConsumesAll ==
-    (mode = "dec" /\ Follow /\ Len(outs) = Len(ops)) => pos = Len(bits)
+    (mode # "enc" /\ Follow /\ Len(outs) = Len(ops)) => pos = Len(bits)
 
 \* C02: every call has an outcome and the cursor stays inside the buffer.
 \* (TLC evaluating DecAt without an out-of-range index *is* the proof that
@@ -317,7 +319,7 @@ Total ==
     /\ \A i \in 1..Len(outs) : outs[i].out \in {"ok", "err", "any"} /\ outs[i].p <= Len(bits)
 
 \* laws of the format itself
-WholeBytes == mode = "dec" => Len(bits) % 8 = 0
+WholeBytes == mode # "enc" => Len(bits) % 8 = 0
 ByteStringsAligned ==
     \* a byte string's length byte always sits on a byte boundary
     \A off \in 0..7 : Len(EncBytesAt(off, <<>>)) = (8 - off) + 8
